@@ -30,7 +30,8 @@ for f in sorted(glob.glob(os.path.join(root, 'props', 'C*.json'))):
         'technique': p.get('technique', 'contract-based deductive verification: WP-style VCs from go/ssa against contracts, discharged by z3/cvc5'),
     })
 hooks = subprocess.run(['git', '-C', '/repo', 'log', '--format=%H %s'], capture_output=True, text=True).stdout.splitlines()
-hook_commits = [l.split()[0] for l in hooks if ' verif:' in l or l.split(' ', 1)[1].startswith('verif')]
+touch = set(subprocess.run(['git', '-C', '/repo', 'log', '--format=%H', '--', '*verif_contracts.go'], capture_output=True, text=True).stdout.split())
+hook_commits = [l.split()[0] for l in hooks if ' verif:' in l or l.split(' ', 1)[1].startswith('verif') or l.split()[0] in touch]
 m = {
     'version': 1,
     'setup_cmd': './setup.sh',
